@@ -36,24 +36,24 @@ static const sanent_t POOL[] = {
     /* 10 */ SE(K_DNS, "good\0.evil", "dns-embedded-nul", 0),
     /* 11 */ SE(K_DNS, "www.example.com\n", "dns-ctrl", 0),
     /* 12 */ SE(K_DNS, "www.ex\xe4mple.com", "dns-highbit", 0),
-    /* 13 */ SE(K_DNS, "www.example.com.", "dns-trailing-dot", 0),
+    /* 13 */ SE(K_DNS, "www.example.com.", "dns-trailing-dot", 1),
     /* 14 */ SE(K_DNS, "www.example.com\0", "dns-trailing-nul", 1),
     /* 15 */ SE(K_DNS, "x.example.org\0", "dns-trailing-nul", 1),
-    /* 16 */ SE(K_DNS, "*.example.com\0", "dns-wild-trailing-nul", 0),
+    /* 16 */ SE(K_DNS, "*.example.com\0", "dns-wild-trailing-nul", 1),
     /* 17 */ SE(K_DNS, "example.com", "dns-parent", 0),
     /* 18 */ SE(K_DNS, "other.example.org", "dns-other", 1),
     /* 19 */ SE(K_DNS, "a.www.example.com", "dns-child", 0),
     /* 20 */ SE(K_DNS, "www.example.com.evil.org", "dns-suffix-ext", 0),
     /* 21 */ SE(K_DNS, " www.example.com", "dns-leading-space", 0),
     /* 22 */ SE(K_DNS, "10.0.0.1", "dns-ip-literal", 0),
-    /* 23 */ SE(K_DNS, "", "dns-empty", 0),
+    /* 23 */ SE(K_DNS, "", "dns-empty", 1),
     /* ---- rfc822Name */
     /* 24 */ SE(K_EMAIL, "user@example.com", "email", 1),
     /* 25 */ SE(K_EMAIL, "User@Example.COM", "email-case", 1),
     /* 26 */ SE(K_EMAIL, "user@EXAMPLE.com", "email-hostcase", 0),
     /* 27 */ SE(K_EMAIL, "user@example.com\0", "email-trailing-nul", 1),
     /* 28 */ SE(K_EMAIL, "user@example.com\0.evil.org", "email-embedded-nul", 0),
-    /* 29 */ SE(K_EMAIL, "www.example.com", "email-without-at", 0),
+    /* 29 */ SE(K_EMAIL, "www.example.com", "email-without-at", 1),
     /* ---- iPAddress */
     /* 30 */ SE(K_IP, "\xc0\xa8\x64\x64", "ip4-15char", 1),                 /* 192.168.100.100 */
     /* 31 */ SE(K_IP, "\xc0\xa8\x01\x01", "ip4", 1),                        /* 192.168.1.1 */
